@@ -577,6 +577,21 @@ class SOpaque(Sym):
         return f"<opaque {self.descr}>"
 
 
+class SGen(Sym):
+    """A generator object: the function and its bound arguments; nothing of its body has run yet (lazy)."""
+    _n = 0
+
+    def __init__(self, func: Any, env: Dict[str, Any]):
+        self.func = func
+        self.env = env
+        SGen._n += 1
+        self.uid = 900000 + SGen._n
+        self.name = f"{func.qual}(...)"
+
+    def __repr__(self) -> str:
+        return f"<generator {self.func.qual}>"
+
+
 class SUnknown(Sym):
     def __init__(self, why: str):
         self.why = why
